@@ -43,7 +43,8 @@ type rsOp struct {
 
 type rsModel struct {
 	ops    []rsOp
-	bounds []int64 // sorted unique boundaries of all ops
+	bounds []int64    // sorted unique boundaries of all ops
+	canon  [][2]int64 // cached canonical ranges (recomputed after every effective op)
 }
 
 func (m *rsModel) apply(add bool, start, end int64) {
@@ -60,6 +61,7 @@ func (m *rsModel) apply(add bool, start, end int64) {
 		copy(m.bounds[i+1:], m.bounds[i:])
 		m.bounds[i] = b
 	}
+	m.canon = m.compute()
 }
 
 func (m *rsModel) member(v int64) bool {
@@ -73,7 +75,9 @@ func (m *rsModel) member(v int64) bool {
 }
 
 // ranges returns the canonical (sorted, disjoint, non-adjacent, non-empty) ranges.
-func (m *rsModel) ranges() [][2]int64 {
+func (m *rsModel) ranges() [][2]int64 { return m.canon }
+
+func (m *rsModel) compute() [][2]int64 {
 	var out [][2]int64
 	for i := 0; i+1 < len(m.bounds); i++ {
 		lo, hi := m.bounds[i], m.bounds[i+1]
@@ -395,7 +399,7 @@ func c24Run(rt *rapid.T) {
 	scenario := c.Intn(4)
 	regime := c.Intn(7)
 	tr.Ev("scenario=%d regime=%d degenerate=%v", scenario, regime, degenerate)
-	maxOps := vs.Range(c, 1, vs.Thorough(60, 200))
+	maxOps := vs.Range(c, 1, vs.Thorough(60, 160))
 	var viol *vs.Violation
 	newSet := func(name string) *rsSet {
 		return &rsSet{name: name, tr: tr, allowEmptySub: degenerate}
@@ -678,7 +682,8 @@ func c30Run(rt *rapid.T) {
 		if v := vs.Guard("C30", "panic_in_copy", func() { p.copy(m.start, buf) }); v != nil {
 			return v
 		}
-		if v := cmp("copy_after_"+after, m.start, buf); v != nil {
+		if v := cmp("audit", m.start, buf); v != nil {
+			v.Detail = "full-window copy after " + after + ": " + v.Detail
 			return v
 		}
 		return nil
